@@ -17,14 +17,14 @@ def _typerule(arg, matrix_in, matrix_out, labelled_out):
 
 
 # ---------------------------------------------------------------- quadratic closed forms
-contract(M + "qubo_to_quso", props=["C04"],
+contract(M + "qubo_to_quso", props=["C04", "C19"],
          instances=[{"Q": k} for k in ("termdict", "model:QUBOMatrix", "model:QUBO", "model:PUBO", "model:PUBOMatrix")],
          requires=["wf(Q) if not typeis(Q, 'dict') else True", "keysvalid('QUBO', Q)"],
          returns=_rtype("QUBOMatrix", "QUSOMatrix", "QUSO"),
          ensures=["sden(result) == bden(Q)", "wf(result)", "isfresh(result)", _typerule("Q", "QUBOMatrix", "QUSOMatrix", "QUSO")],
          loops={1: {"invariant": "sden(L) == bden(visited) and wf(L)"}})
 
-contract(M + "quso_to_qubo", props=["C04"],
+contract(M + "quso_to_qubo", props=["C04", "C19"],
          instances=[{"L": k} for k in ("termdict", "model:QUSOMatrix", "model:QUSO", "model:PUSO", "model:PUSOMatrix")],
          requires=["wf(L) if not typeis(L, 'dict') else True", "keysvalid('QUSO', L)"],
          returns=_rtype("QUSOMatrix", "QUBOMatrix", "QUBO"),
@@ -32,21 +32,21 @@ contract(M + "quso_to_qubo", props=["C04"],
          loops={1: {"invariant": "bden(Q) == sden(visited) and wf(Q)"}})
 
 # ---------------------------------------------------------------- term-by-term expansions (recursive generators)
-contract(M + "pubo_to_puso.<locals>.generate_new_key_value", props=["C04"],
+contract(M + "pubo_to_puso.<locals>.generate_new_key_value", props=["C04", "C19"],
          instances=[{"k": "key"}],
          gen={"item": ("key", "value"), "kinds": ("key", "real"), "sum": "value * smono(key)", "total": "bmono(k)",
               "each": "implies(matvalid(k), matvalid(key))"},
          decreases="klen(k)",
          loops={1: {"invariant": "yielded == xv(k[0]) * visited"}})
 
-contract(M + "puso_to_pubo.<locals>.generate_new_key_value", props=["C04"],
+contract(M + "puso_to_pubo.<locals>.generate_new_key_value", props=["C04", "C19"],
          instances=[{"k": "key"}],
          gen={"item": ("key", "value"), "kinds": ("key", "real"), "sum": "value * bmono(key)", "total": "smono(k)",
               "each": "implies(matvalid(k), matvalid(key))"},
          decreases="klen(k)",
          loops={1: {"invariant": "yielded == zv(k[0]) * visited"}})
 
-contract(M + "pubo_to_puso", props=["C04"],
+contract(M + "pubo_to_puso", props=["C04", "C19"],
          instances=[{"P": k} for k in ("termdict", "model:PUBOMatrix", "model:PUBO", "model:PCBO", "model:QUBO", "model:QUBOMatrix")],
          requires=["wf(P) if not typeis(P, 'dict') else True"],
          returns=_rtype("PUBOMatrix", "PUSOMatrix", "PUSO"),
@@ -54,7 +54,7 @@ contract(M + "pubo_to_puso", props=["C04"],
          loops={1: {"invariant": "sden(H) == bden(visited) and wf(H)"},
                 2: {"invariant": "sden(H) == bden(visited1) + v * visited and wf(H)"}})
 
-contract(M + "puso_to_pubo", props=["C04"],
+contract(M + "puso_to_pubo", props=["C04", "C19"],
          instances=[{"H": k} for k in ("termdict", "model:PUSOMatrix", "model:PUSO", "model:PCSO", "model:QUSO", "model:QUSOMatrix")],
          requires=["wf(H) if not typeis(H, 'dict') else True"],
          returns=_rtype("PUSOMatrix", "PUBOMatrix", "PUBO"),
